@@ -51,19 +51,12 @@ pub struct Aspects {
 pub fn begin<S: Src>(s: &mut S, pc: u32) -> Ctx {
     let mut cpu = mk_cpu(s, pc);
     native_distinct_cfg(&mut cpu);
-    let mut code = [0u8; CODE_LEN];
-    let mut i = 0;
-    while i < CODE_LEN {
-        code[i] = s.u8();
-        i += 1;
-    }
+    // (array literals instead of loops: keeps the unwinding bound a harness needs small)
+    let code: [u8; CODE_LEN] = [s.u8(), s.u8(), s.u8(), s.u8(), s.u8(), s.u8(), s.u8(), s.u8(), s.u8(), s.u8()];
     ghost::draw_costs(s);
-    let mut pool = [0u8; mem::POOL];
-    let mut j = 0;
-    while j < mem::POOL {
-        pool[j] = s.u8();
-        j += 1;
-    }
+    let pool: [u8; mem::POOL] = [
+        s.u8(), s.u8(), s.u8(), s.u8(), s.u8(), s.u8(), s.u8(), s.u8(), s.u8(), s.u8(), s.u8(), s.u8(), s.u8(), s.u8(), s.u8(), s.u8(),
+    ];
     mem::set_pool(pool);
     let pre = snap(&cpu);
     Ctx { cpu, pre, code, pc0: pc }
